@@ -184,7 +184,9 @@ pub fn jobs(ctx: &Ctx) -> Vec<Prog> {
         let mut ops = Vec::with_capacity(nops);
         for _ in 0..nops {
             ops.push(match rng.below(11) {
-                0 => Op::Shape(rng.below(6)),
+                // 6 = a caller-supplied drawing function (`Shape::Command`), which the host compilation of wasm.rs accepts
+                // like any other shape
+                0 => Op::Shape(rng.below(7)),
                 1 => Op::ModuleColor(random_colour_string(&mut rng)),
                 2 => Op::Margin(*rng.pick(&[0usize, 1, 2, 4, 7, 16, 1000, 1 << 20])),
                 3 => Op::Background(random_colour_string(&mut rng)),
@@ -231,6 +233,19 @@ pub fn jobs(ctx: &Ctx) -> Vec<Prog> {
 enum Col {
     Known([u8; 4]),
     Unknown,
+}
+
+/// the drawing function behind shape index 6
+fn custom_shape(y: usize, x: usize, _m: fast_qr::Module) -> String {
+    format!("M{x},{y}h.5v.5h-.5z")
+}
+
+fn shape_of(k: usize) -> fast_qr::convert::Shape {
+    if k < 6 {
+        SHAPES[k]
+    } else {
+        fast_qr::convert::Shape::Command(custom_shape)
+    }
 }
 
 pub fn observe(_ctx: &Ctx, st: &mut Stats, p: &Prog) {
@@ -285,7 +300,7 @@ pub fn observe(_ctx: &Ctx, st: &mut Stats, p: &Prog) {
             }
         };
         let r = adapter::guarded(|| match op {
-            Op::Shape(k) => o.shape(SHAPES[*k]),
+            Op::Shape(k) => o.shape(shape_of(*k)),
             Op::ModuleColor(s) => o.module_color(s.clone()),
             Op::Margin(m) => o.margin(*m),
             Op::Background(s) => o.background_color(s.clone()),
@@ -363,7 +378,7 @@ pub fn observe(_ctx: &Ctx, st: &mut Stats, p: &Prog) {
                 Col::Unknown => [1, 2, 3, 255],
             };
             let mut b = SvgBuilder::default();
-            b.shape(SHAPES[shape]);
+            b.shape(shape_of(shape));
             b.margin(margin);
             b.background_color(col(&bg));
             b.module_color(col(&module));
